@@ -330,6 +330,13 @@ def falsify(ctx):
             os.makedirs(d)
             samples = gen.gen_sample_family(rng, 4, 2) if rng.random() < .7 else gen.gen_samples(rng, 4, 2)
             files, argv, fmt, style = split_samples(rng, samples)
+            if rng.random() < 0.12:
+                # a model name whose files contribute no sample at all (empty result pages): it is still a model
+                files["empty1.json"] = []
+                files["empty2.json"] = {"items": []}
+                argv += rng.choice([["-m", "Empty", "empty1.json"], ["-m", "Empty", "items", "empty2.json"],
+                                    ["-m", "Empty", "empty1.json", "-l", "Empty", "items", "empty2.json"]])
+                style = style + "+empty-model"
             opts, oargv = gen_opts(rng)
             use_o = rng.random() < .3
             clitools.write_files(d, files)
@@ -341,7 +348,7 @@ def falsify(ctx):
             ctx.case((repr(files), tuple(argv)), nontrivial=len(files) > 1)
             ctx.count("style:" + style)
             ctx.sample({"files": files, "argv": argv}, limit=2)
-            if style == "glob":
+            if style.split("+")[0] == "glob":
                 # files matched by one pattern come in the file system's order (unspecified by the property): read the
                 # order this directory yields and give the library the samples in that order
                 from pathlib import Path
@@ -351,7 +358,13 @@ def falsify(ctx):
                 order = [n for n in seen if n in matching] + [n for n in matching if n not in seen]
                 samples = [x for name_ in order for x in files[name_]]
             try:
-                want = library_text({"Root": samples}, opts)
+                models_data = {"Root": samples}
+                if style.endswith("+empty-model"):
+                    # model names come in the order of their first -m argument, then of their first -l argument
+                    names = [argv[i + 1] for flag in ("-m", "-l") for i, a in enumerate(argv) if a == flag]
+                    first = list(dict.fromkeys(names))
+                    models_data = {n: (samples if n == "Root" else []) for n in first}
+                want = library_text(models_data, opts)
                 lib_err = None
             except stages.TooCostly:
                 ctx.count("skip:too-costly")
